@@ -217,6 +217,41 @@ pub fn oracle(case: &Case) -> Verdict {
             }
         }
     }
+    // (2b) the same through the distribution-header encoder: node-local identifiers are opaque, their bytes must
+    // appear unchanged even when their node name also travels in the atom cache
+    if n_local > 0 {
+        let mut names: Vec<String> = vec![];
+        v.walk(&mut |x| {
+            if let Value::Pid { node, .. } | Value::Port { node, .. } | Value::Ref { node, .. } = x {
+                if !names.contains(node) {
+                    names.push(node.clone());
+                }
+            }
+        });
+        let mut ctl = vec![OwnedTerm::Integer(2), OwnedTerm::atom("")];
+        ctl.extend(names.iter().take(3).map(|n| OwnedTerm::atom(n.as_str())));
+        let ctl = OwnedTerm::Tuple(ctl);
+        match erltf::encode_with_dist_header_multi(&[&ctl, &t]) {
+            Ok(hb) => {
+                let count = |hay: &[u8], needle: &[u8]| -> usize { if needle.is_empty() { 0 } else { hay.windows(needle.len()).filter(|w| *w == needle).count() } };
+                for s0 in spans0.iter().filter(|s| s.local) {
+                    let sb = span_bytes(&b0, s0);
+                    if count(&hb, sb) < count(&b0, sb) {
+                        vfail!(
+                            "identifier-bytes-changed",
+                            "distribution-header encoder: node-local {} at path '{}' received as {} does not appear unchanged in {}",
+                            s0.kind,
+                            s0.path,
+                            hex(sb),
+                            hex(&hb[..hb.len().min(400)])
+                        );
+                    }
+                }
+            }
+            Err(erltf::errors::EncodeError::TooManyAtoms { .. }) | Err(erltf::errors::EncodeError::AtomTooLarge { .. }) => {}
+            Err(e) => vfail!("reencode-error", "encode_with_dist_header_multi: {e:?}"),
+        }
+    }
     // (3) conversion sequence
     let mut cur = t.clone();
     let mut expect_body: Vec<u8> = b1[1..].to_vec();
